@@ -98,6 +98,7 @@ REFUSED = {
     "flag loop whose else sets True": "def f(d, x, o):\n    for w in x.split():\n        b = w == 'a'\n        if b:\n            break\n    else:\n        b = True\n    if b:\n        return 'y'\n    return x\n",
     "flag loop whose flag is set before": "def f(d, x, o):\n    b = True\n    for w in x.split():\n        b = w == 'a'\n        if b:\n            break\n    else:\n        b = False\n    if b:\n        return 'y'\n    return x\n",
     "flag loop that reads the flag": "def f(d, x, o):\n    for w in x.split():\n        b = w == 'a'\n        b |= not b\n        if b:\n            break\n    else:\n        b = False\n    if b:\n        return 'y'\n    return x\n",
+    "flag loop whose flag holds a list": "def f(d, x, o):\n    for w in x.split():\n        b = w.split()\n        if b:\n            break\n    else:\n        b = False\n    if b:\n        return 'y'\n    return x\n",
     "loop updating two locals": "def f(d, x, o):\n    n = 0\n    m = 0\n    for w in x.split():\n        n += 1\n        m += 2\n    if n == m:\n        return 'y'\n    return x\n",
     "loop updating an undeclared local": "def f(d, x, o):\n    for w in x.split():\n        n = 1\n    return x\n",
     "search loop with an else branch": "def f(d, x, o):\n    for w in x.split():\n        if w == 'a':\n            return w\n        else:\n            return x\n    return x\n",
